@@ -24,6 +24,11 @@ RULE = ("scan: generated age distributions over 0-5 mailboxes (incl. emptied one
         "an id-reuse stream removes every expired message still live (or purges) and delivers fresh mail before the first and between "
         "the scanner's removals; a stream parks a delivery between its mailbox lookup and its mailbox lock across the removal "
         "that empties the mailbox (memory store, verifhook mem.wm.lock); "
+        "slow: a message is handed to the real Store.AddMessage with a body reader that parks after its first chunk (half way into the store) "
+        "while the real DoScan runs on the same store - mostly a mailbox whose listed mail has all expired, so that the scanner's last "
+        "removal empties it - and is released when the scan has completed (or after 200 ms if the store makes the scanner wait for the "
+        "delivery): afterwards expired mail is gone, young mail and the new message are listed; in every scan / slow case each listed "
+        "survivor's Source() must open and hold exactly the bytes delivered (listed-message-content-destroyed otherwise); "
         "a third cancels the context during the n-th callback (RetentionSleep 100 ms), a fourth does so with RetentionSleep 0 / 1 ns where the "
         "select at the callback end is a race (any outcome of the model's alternatives is accepted); dlv: mail delivered through the real StoreManager.Deliver carrying its own Date: header (days / years in the past, in the future, missing, garbled), then DoScan: just-arrived mail must survive whatever the header says, and with a period of 1 s after 3 s of waiting all of it must go — arrival time decides (a real arrival cannot be aged further: the old-arrival half of the clause stays on the direct-store stream); start: the real Start with period <= 0, with cancellation before the first minute and (thorough) after its first scan, judged against the run-loop model. asm12: the assembled server (server.FullAssembly + Services.Start, child process) serves for 1.5 s a file store that already holds messages of mixed ages, with period 0 and positive periods: afterwards no unexpired message (period 0: no message at all) may be missing; the surviving messages are compared with what the run-loop model leaves after the seconds served. "
         "distinct = distinct input line; non-trivial = the store holds at least one message before the scan.")
@@ -31,6 +36,8 @@ TRUSTED = [
     "the tie of the store models to the Go stores is C07's correspondence check (scan_over_store_models ties this property's model to those models); store operations are atomic (C09)",
     "the forced interleaving is produced by a wrapper around the storage.Store handed to the real RetentionScanner and by the "
     "verifhook points file.visit.l2/l3 inside VisitMailboxes and mem.wm.lock inside withMailbox",
+    "the in-flight delivery of the `slow` cases is an io.Reader that parks after its first chunk, inside the storage.Message handed to the "
+    "real Store.AddMessage (no hook); how far into AddMessage the store is at that moment is the store's business",
     "monotone clock: a message delivered after the scan started is younger than the cutoff",
     "the run loop's clock is not fake-able (retention.go reads time.Now / time.After directly and hooks may not touch existing lines): "
     "the loop model is tied to the code through the `start` cases (real Start, real minute in the thorough tier) and the assembled-server cases asm12",
@@ -55,6 +62,8 @@ def nontrivial(kind, ins, outs):
         return any(b.split(":", 1)[1] for b in ins[2].split(";")) if ins[2] != "-" else False
     if kind == "start":
         return ins[3] != "-"
+    if kind == "slow":
+        return True
     if kind == "asm12":
         return True
     return False
@@ -68,6 +77,21 @@ def shrink_candidates(inp):
             r = ds[:i] + ds[i + 1:]
             if r:
                 yield " ".join(parts[:4] + [",".join(r)])
+        return
+    if parts[0] == "slow":
+        kind, store, period, boxes, target = parts
+        bl = boxes.split(";")
+        for i in range(len(bl)):
+            r = bl[:i] + bl[i + 1:]
+            if r:
+                yield " ".join([kind, store, period, ";".join(r), target])
+        for i, b in enumerate(bl):
+            mb, ages = b.split(":", 1)
+            al = ages.split(",") if ages else []
+            if len(al) > 1:
+                for j in range(len(al)):
+                    r = al[:j] + al[j + 1:]
+                    yield " ".join([kind, store, period, ";".join(bl[:i] + [mb + ":" + ",".join(r)] + bl[i + 1:]), target])
         return
     if parts[0] != "scan":
         return
